@@ -416,7 +416,14 @@ func c04Source(t c04Type) string {
 	w("var gb %s", T)
 	w("var gk %s", T)
 	w("func mkS() *S { return &S{} }")
-	w("func id(a %s) %s { return a }", T, T)
+	w("type S2 struct { L []%s; M map[string]%s }", T, T)
+	// the helpers return any, so that no conversion at a return hides a value that was stored untyped
+	w("func va(xs ...%s) any { return xs[0] }", T)
+	w("func va2(n int, xs ...%s) any { return xs[n] }", T)
+	w("func (s *S) Put(a %s) any { return a }", T)
+	w("func (s *S) PutV(xs ...%s) any { return xs[len(xs)-1] }", T)
+	w("func two(a %s, b %s) (any, any) { return b, a }", T, T)
+	w("func id(a %s) any { return a }", T)
 	for _, op := range c04Ops {
 		if t.float && (op.intOnly) {
 			continue
@@ -496,20 +503,37 @@ func c04Source(t c04Type) string {
 	// typed declarations with constant initialisers
 	for ki, k := range c04Consts(t) {
 		lit := c04Lit(t, k)
-		w("func d_var_%d() %s { var x %s = %s; return x }", ki, T, T, lit)
-		w("func d_conv_%d() %s { x := %s(%s); return x }", ki, T, T, lit)
-		w("func d_param_%d() %s { return id(%s) }", ki, T, lit)
-		w("func d_ret_%d() %s { return %s }", ki, T, lit)
-		w("func d_field_%d() %s { s := &S{A: %s}; return s.A }", ki, T, lit)
-		w("func d_fieldset_%d() %s { s := &S{}; s.A = %s; return s.A }", ki, T, lit)
-		w("func d_elem_%d() %s { s := []%s{%s}; return s[0] }", ki, T, T, lit)
-		w("func d_elemset_%d() %s { s := make([]%s, 1); s[0] = %s; return s[0] }", ki, T, T, lit)
-		w("func d_map_%d() %s { m := map[string]%s{\"k\": %s}; return m[\"k\"] }", ki, T, T, lit)
-		w("func d_mapset_%d() %s { m := map[string]%s{}; m[\"k\"] = %s; return m[\"k\"] }", ki, T, T, lit)
-		w("func d_append_%d() %s { var s []%s; s = append(s, %s); return s[0] }", ki, T, T, lit)
-		w("func d_assign_%d() %s { var x %s; x = %s; return x }", ki, T, T, lit)
-		w("func d_global_%d() %s { gk = %s; return gk }", ki, T, lit)
-		w("func d_multi_%d() %s { var x, y %s = %s, %s; return x + y - y }", ki, T, T, lit, lit)
+		w("func d_var_%d() any { var x %s = %s; return x }", ki, T, lit)
+		w("func d_conv_%d() any { x := %s(%s); return x }", ki, T, lit)
+		w("func d_param_%d() any { return id(%s) }", ki, lit)
+		w("func d_ret_%d() any { f := func() %s { return %s }; return f() }", ki, T, lit)
+		w("func d_field_%d() any { s := &S{A: %s}; return s.A }", ki, lit)
+		w("func d_fieldset_%d() any { s := &S{}; s.A = %s; return s.A }", ki, lit)
+		w("func d_elem_%d() any { s := []%s{%s}; return s[0] }", ki, T, lit)
+		w("func d_elemset_%d() any { s := make([]%s, 1); s[0] = %s; return s[0] }", ki, T, lit)
+		w("func d_map_%d() any { m := map[string]%s{\"k\": %s}; return m[\"k\"] }", ki, T, lit)
+		w("func d_mapset_%d() any { m := map[string]%s{}; m[\"k\"] = %s; return m[\"k\"] }", ki, T, lit)
+		w("func d_append_%d() any { var s []%s; s = append(s, %s); return s[0] }", ki, T, lit)
+		w("func d_assign_%d() any { var x %s; x = %s; return x }", ki, T, lit)
+		w("func d_global_%d() any { gk = %s; return gk }", ki, lit)
+		w("func d_multi_%d() any { var x, y %s = %s, %s; return x + y - y }", ki, T, lit, lit)
+		w("func d_variadic_%d() any { return va(%s) }", ki, lit)
+		w("func d_variadic2_%d() any { return va2(1, 1, %s, 1) }", ki, lit)
+		w("func d_mparam_%d() any { s := &S{}; return s.Put(%s) }", ki, lit)
+		w("func d_mvariadic_%d() any { s := &S{}; return s.PutV(1, %s) }", ki, lit)
+		w("func d_ret2_%d() any { f := func() (%s, int) { return %s, 1 }; x, _ := f(); return x }", ki, T, lit)
+		w("func d_ret2b_%d() any { f := func() (int, %s) { return 1, %s }; _, x := f(); return x }", ki, T, lit)
+		w("func d_two_%d() any { x, _ := two(1, %s); return x }", ki, lit)
+		w("func d_funclit_%d() any { f := func(a %s) any { return a }; return f(%s) }", ki, T, lit)
+		w("func d_nested_%d() any { s := [][]%s{{%s}}; return s[0][0] }", ki, T, lit)
+		w("func d_mapslice_%d() any { m := map[string][]%s{\"k\": {%s}}; return m[\"k\"][0] }", ki, T, lit)
+		w("func d_fieldslice_%d() any { s := &S2{L: []%s{%s}}; return s.L[0] }", ki, T, lit)
+		w("func d_fieldmap_%d() any { s := &S2{M: map[string]%s{}}; s.M[\"k\"] = %s; return s.M[\"k\"] }", ki, T, lit)
+		w("func d_appendmany_%d() any { s := []%s{1}; s = append(s, 1, %s); return s[2] }", ki, T, lit)
+		w("func d_swap_%d() any { var x, y %s; x, y = %s, 1; x, y = y, x; return y }", ki, T, lit)
+		w("func d_ifinit_%d() any { if x := id(%s); true { return x }; return 0 }", ki, lit)
+		w("func d_switch_%d() any { var x %s; switch { default: x = %s }; return x }", ki, T, lit)
+		w("func d_range_%d() any { var r %s; for _, x := range []%s{%s} { r = x }; return r }", ki, T, T, lit)
 	}
 	return sb.String()
 }
@@ -742,7 +766,8 @@ func (w *c04Worker) shiftMixed(a float64, ct c04Type, c float64) {
 func (w *c04Worker) decls() {
 	t := w.t
 	for ki, k := range c04Consts(t) {
-		for _, n := range []string{"var", "conv", "param", "ret", "field", "fieldset", "elem", "elemset", "map", "mapset", "append", "assign", "global", "multi"} {
+		for _, n := range []string{"var", "conv", "param", "ret", "field", "fieldset", "elem", "elemset", "map", "mapset", "append", "assign", "global", "multi",
+			"variadic", "variadic2", "mparam", "mvariadic", "ret2", "ret2b", "two", "funclit", "nested", "mapslice", "fieldslice", "fieldmap", "appendmany", "swap", "ifinit", "switch", "range"} {
 			w.call(fmt.Sprintf("d_%s_%d", n, ki), t, c04Want{num: k}, []float64{k})
 		}
 		w.call(fmt.Sprintf("nk_decl_%d", ki), t, c04Want{num: k}, []float64{k})
@@ -751,7 +776,7 @@ func (w *c04Worker) decls() {
 }
 
 func runC04(r *core.Run) {
-	r.SetRule("script functions a OP b / a OP= b / a++ / -a / ^a / T(a) / typed declarations, per numeric type, with operands held in locals, globals, struct fields, slice elements and map elements, called through VM.Call and compared (value bit-for-bit incl. -0 and NaN, and dynamic type) with the same operation compiled natively into the harness. 8-bit types: every operand pair. non-trivial = the call returned and Go defines a value (not a panic); distinct by (type, function, operands)")
+	r.SetRule("script functions a OP b / a OP= b / a++ / -a / ^a / T(a) / typed declarations and every other place where a constant takes a declared type (parameters incl. variadic and method parameters, single and multiple results, function literals, fields, elements of nested composites, append, tuple assignment), per numeric type, with operands held in locals, globals, struct fields, slice elements and map elements, called through VM.Call and compared (value bit-for-bit incl. -0 and NaN, and dynamic type) with the same operation compiled natively into the harness. 8-bit types: every operand pair. non-trivial = the call returned and Go defines a value (not a panic); distinct by (type, function, operands)")
 	r.Assume("the Go compiler that built the harness implements Go's arithmetic; float->integer conversions out of range and NaN are left out (implementation-defined in Go)")
 	thorough := r.Thorough()
 	type task struct {
